@@ -10,6 +10,7 @@ from harness.c15 import check_library
 
 CLAUSES = {
     "Inv_SchemaValid": "the generated schema does not conform to its declared draft, or a $ref does not resolve",
+    "Inv_GenerationDoesNotRaise": "the JSON Schema generator raised an exception on an accepted meta-model (no schema at all)",
     "Inv_ValidAdmitted": "a document the SDK produced from an instance satisfying all invariants is rejected by the schema",
     "Inv_OracleAgrees": "spec and generated verification disagree on whether the instance satisfies the invariants",
     "Inv_ViolationRejected": "a document with one broken length / pattern / list-size constraint validates",
@@ -23,7 +24,7 @@ CLAUSES = {
 ORACLE = {"Inv_OracleAgrees", "Inv_ViolationIsInvalid"}
 
 
-DUMMY_SCN = {"kind": "str", "opt": False, "wmt": False, "cls": [[]], "prim": []}
+DUMMY_SCN = {"kind": "str", "opt": False, "wmt": False, "shape": "chain", "cls": [[]], "prim": []}
 
 
 def corpus_entries() -> List[Dict[str, Any]]:
@@ -96,7 +97,7 @@ def run(pid: str) -> int:
         idx = int(m.group(1)) - 1
         if w.group(1) == "schema":
             s, k = obs["schemas"][idx], keys["schemas"][idx]
-            key = {"clause": v["invariant"], "cause": k["cause"], "kind": k["kind"], "origin": k["origin"]}
+            key = {"clause": v["invariant"], "cause": k["cause"], "kind": k["kind"], "origin": k["origin"], "multi_parent": bool(k["multi_parent"])}
             ck.violation(key, v["invariant"], {"scn": s["scn"], "origin": s["origin"]}, {"gen": s["gen"], "draft_ok": s["draft_ok"], "refs_ok": s["refs_ok"], "msg": s["msg"]}, detail="%s: %s; model:\n%s" % (CLAUSES[v["invariant"]], s["msg"][:200], schema_scen.render(s["scn"])[-700:]))
         else:
             c, k = obs["cases"][idx], keys["cases"][idx]
